@@ -78,7 +78,7 @@ def check(run, replay):
     run.assumptions += ["g++ compiles /repo faithfully", "strings contain no NUL beyond what cstr models; windows syntax (case folding, backslash, drive/UNC roots) is not modelled"]
     run.extra["rule"] = ("pm: patterns from tokens {a,b,ab,.,..,/,a.c,*,**,?,?*,*?,***,*.c,...} (0-6 tokens, 3% arbitrary byte), half of the paths "
                          "instantiated from the pattern (+ prefix/suffix components), 9 base paths, 30% directory mode; thorough adds all patterns "
-                         "over {a,b,.,/,*,?} len<=5 x all paths over {a,b,.,/} len<=5; non-trivial = distinct case whose pattern has a wildcard or "
+                         "over {a,b,.,/,*,?} len<=4 x all paths over {a,b,.,/} len<=4 and patterns len<=5 x paths len<=3; non-trivial = distinct case whose pattern has a wildcard or "
                          "separator and that reaches the loop (no fast path). iter: distinct (a,b). select/lister: distinct (tree, patterns, inputs) "
                          "with at least one pattern. accept/identify/simplify: distinct input.")
 
@@ -156,7 +156,7 @@ def check(run, replay):
     # ---- stream 2: PathMatch::match (tie) and the documented rules (property)
     n = 12000 if quick else 400000
     cases = list(CORPUS_PM) + [G.gen_pm_case(rng) for _ in range(n)]
-    cases += list(G.exhaustive_pm(3, 3)) if quick else list(G.exhaustive_pm(5, 5))
+    cases += list(G.exhaustive_pm(3, 3)) if quick else list(G.exhaustive_pm(4, 4)) + list(G.exhaustive_pm(5, 3))
     cases = [list(c) for c in dict.fromkeys(tuple(c) for c in cases)]
 
     def pm_nt(c, m, i):
@@ -314,7 +314,15 @@ def select_stream(run, rng, model, vh, scratch, ntrees, per_tree):
         m = vlib.dec_line(o)
         args = [vlib.CPPCHECK] + ["-i" + os.fsdecode(p) for p in ign] + ["--file-filter=" + os.fsdecode(p) for p in filt] + \
                [os.fsdecode(p) for p, _ in inputs]
-        pr = subprocess.run(args, cwd=root, stdout=subprocess.PIPE, stderr=subprocess.STDOUT, timeout=300)
+        for attempt in range(4):
+            pr = subprocess.run(args, cwd=root, stdout=subprocess.PIPE, stderr=subprocess.STDOUT, timeout=300)
+            # the shared build directory may be re-linked / its cfg files re-copied by a concurrent check
+            if b"installation is broken" not in pr.stdout and pr.returncode >= 0:
+                break
+            import time
+            time.sleep(5)
+        else:
+            raise vlib.BuildError("cppcheck binary not usable (concurrent rebuild?): " + pr.stdout.decode("utf-8", "replace")[-300:])
         got = [mm.group(1) for mm in (CHECKING.match(l) for l in pr.stdout.split(b"\n")) if mm]
         if m == [b"F"]:
             run.count("select(e2e)", None, bucket="fuel")
